@@ -213,12 +213,41 @@ def _abstract_apps(terms, congruence=True):
     return out
 
 
-def _by_rewriting(pc, goal, external=False, skip_z3=False):
+def _resolve_guards(terms):
+    """`guard -> body` with an ARITHMETIC guard that the arithmetic hypotheses alone entail is replaced by `body`
+    (equivalent under the hypotheses).  The defining equations of the measures (join(i+1) == join(i) + xs[i] for
+    0 <= i < len, ...) are guarded like that: unguarded, `solve-eqs` substitutes them away and what is left is
+    decided by simplification, where the string solvers, given the same facts as conditional word equations, get
+    lost."""
+    cands = [t for t in terms if (z3.is_implies(t) or (z3.is_or(t) and t.num_args() == 2 and z3.is_not(t.arg(0))))
+             and not _uses_strings([t.arg(0)])]
+    if not cands or len(cands) > 200:
+        return terms
+    s = z3.Solver()
+    s.set('timeout', 300)
+    s.add(*[t for t in terms if not _uses_strings([t])])
+    ids = {t.get_id() for t in cands}
+    out = []
+    for t in terms:
+        if t.get_id() in ids:
+            guard = t.arg(0) if z3.is_implies(t) else t.arg(0).arg(0)
+            s.push()
+            s.add(z3.Not(guard))
+            r = s.check()
+            s.pop()
+            if r == z3.unsat:
+                out.append(t.arg(1))
+                continue
+        out.append(t)
+    return out
+
+
+def _by_rewriting(pc, goal, external=False, skip_z3=False, timeout_ms=2000):
     """Cheap first attempt: abstract uninterpreted applications, eliminate defined symbols (solve-eqs) and
     simplify.  Decides the many obligations that are pure rewriting with the equations on the path -- where
     the string solvers, given the same equations as word equations, do not terminate."""
     try:
-        terms = _abstract_apps(list(pc) + [z3.Not(goal)])
+        terms = _resolve_guards(_abstract_apps(list(pc) + [z3.Not(goal)]))
         g = z3.Goal()
         g.add(*terms)
         res = z3.Then('simplify', 'propagate-values', 'solve-eqs', 'simplify')(g)
@@ -226,7 +255,7 @@ def _by_rewriting(pc, goal, external=False, skip_z3=False):
             if len(sub) == 1 and z3.is_false(sub[0]):
                 continue
             s = z3.Solver()
-            s.set('timeout', 2000)
+            s.set('timeout', timeout_ms)
             s.add(*[sub[i] for i in range(len(sub))])
             r = z3.unknown if (skip_z3 and external) else s.check()      # (skip_z3: z3 has been tried on this already)
             if r == z3.unsat:
